@@ -1043,6 +1043,7 @@ fn stream_triples(thorough: bool, seed: u64, out: &mut dyn Write) {
     let ops: Vec<String> = std::env::var("GEN_OPS").unwrap_or_else(|_| "max,min".into()).split(',').map(|s| s.to_string()).collect();
     let (l, s, r) = universe();
     let o = |x: Option<&Vec<u8>>| x.map_or("~".to_string(), |v| hex(v));
+    let counter = std::cell::Cell::new(0usize);
     let emit = |out: &mut dyn Write, a: Option<&Vec<u8>>, b: Option<&Vec<u8>>, c: Option<&Vec<u8>>| {
         for op in &ops {
             if op == "max" || op == "min" {
@@ -1053,6 +1054,13 @@ fn stream_triples(thorough: bool, seed: u64, out: &mut dyn Write) {
                 for p in [b, c].into_iter().flatten() {
                     id.push(b'-');
                     id.extend_from_slice(p);
+                }
+                if op.starts_with("loc") {
+                    // arbitrary variants / extensions attached (C07, C08: never touched)
+                    const SUF: &[&str] = &["", "-macos", "-macos-valencia", "-u-ca-buddhist", "-t-es-AR-h0-hybrid-x-priv", "-1996-u-attr-nu-latn-t-h0-foo", "-x-a"];
+                    let n = counter.get();
+                    counter.set(n + 1);
+                    id.extend_from_slice(SUF[n % SUF.len()].as_bytes());
                 }
                 writeln!(out, "{} {}", op, hex(&id)).unwrap();
             }
